@@ -202,6 +202,16 @@ func c17Gen(r *rand.Rand) *c17Schema {
 	if r.Intn(3) == 0 {
 		s.Subscription = pick(r, []string{"Subscription", "Sub"})
 	}
+	// an object type that merely has the name a root type has in other schemas, without being a root here
+	// (a type with the default name Mutation / Subscription is made a root by the library's base-schema merge even when
+	// the schema definition does not list it — a documented normalisation of the configured schema — so only the
+	// non-default names are used here)
+	if s.Mutation == "" && r.Intn(3) == 0 {
+		objs = append(objs, "Mut")
+	}
+	if s.Subscription == "" && r.Intn(3) == 0 {
+		objs = append(objs, "Sub")
+	}
 	outputLeaf := append(append(append([]string{"String", "Int", "Float", "Boolean", "ID"}, objs...), ifaces...), append(append(enums, scalars...), unions...)...)
 	inputLeaf := append(append([]string{"String", "Int", "Float", "Boolean", "ID"}, enums...), append(inputs, scalars...)...)
 	var mkRef func(leaves []string, depth int) *c17Ref
